@@ -54,7 +54,7 @@ class FileUnderTest:
         self.f = CountingFile(path)
         self.r = SgzReader(self.f, preload=preload)
         self.model = model
-        self.hdr = model.hdr_tokens(self.spec.raw[:4096])
+        self.hdr = model.hdr_tokens(self.spec.raw[:4096]) if model is not None else None
         self.mask = None
         if not self.spec.is2d and self.spec.tracecount != self.spec.n_il * self.spec.n_xl:
             self.r.get_unstructured_mask()
